@@ -12,7 +12,7 @@ open Kp.Fmt
 /-- days from 1970-01-01 to the civil date (proleptic Gregorian; Hinnant's algorithm) -/
 def daysFromCivil (y m d : Int) : Int :=
   let y' := if m ≤ 2 then y - 1 else y
-  let era := (if y' ≥ 0 then y' else y' - 399) / 400
+  let era := y' / 400   -- floor division (Lean's `/` on `Int` rounds down for a positive divisor); Hinnant's `- 399` is for C's truncating `/`
   let yoe := y' - era * 400
   let mp := (m + 9) % 12
   let doy := (153 * mp + 2) / 5 + d - 1
